@@ -58,7 +58,7 @@ func (c12) endWithCommands(c *core.Ctx) {
 		}
 		ind += "    "
 	}
-	k := &c10Cmd{name: "tail", shape: r.Intn(7), polls: 1 + r.Intn(4), gate: make(chan struct{}), fail: r.Chance(2, 3)}
+	k := &c10Cmd{name: "tail", shape: r.Intn(7), polls: 1 + r.Intn(4), gate: make(chan struct{}), fail: r.Chance(2, 3), err: c10ErrValues[r.Intn(len(c10ErrValues))]}
 	if k.shape == 2 {
 		k.fail = false // func() has no way to report an error
 	}
@@ -70,9 +70,17 @@ func (c12) endWithCommands(c *core.Ctx) {
 	case "D":
 		// a pending command in the MIDDLE of a body that reports success by closing its channel: that is a
 		// completion, not an end - and if an end is reported, it is absorbing
+		// - or reports one of the error values a game's command may well report (context.Canceled, io.EOF ...):
+		// an error like any other, not a request to end the dialogue
 		k.shape = []int{0, 1, 4, 5, 6}[r.Intn(5)]
-		k.fail = false
-		k.closeOnly = true
+		if r.Bool() {
+			k.fail = false
+			k.closeOnly = true
+		} else {
+			k.fail = true
+			k.err = c10ErrValues[2+r.Intn(len(c10ErrValues)-2)]
+			c.Feature("tail:pending-command-in-mid-body-reports-a-well-known-error-value")
+		}
 		fmt.Fprintf(&b, "%s<<tail t 1.5 true>>\n", ind)
 		stmt()
 		stmt()
